@@ -216,6 +216,13 @@ Fixpoint str2int_digits (base : Z) (n : Z) (s : list Z) : Z * list Z :=
       end
   end.
 
+(* the digit loop of str2int moves iff the first character is a digit of the base *)
+Definition first_is_digit (base : Z) (s : list Z) : bool :=
+  match s with
+  | c :: _ => match digit_of c with Some x => x <? base | None => false end
+  | [] => false
+  end.
+
 (* str2int(s, base): None = (false, 0).  base = 0 detects a 0x / 0b prefix (only when at least one more
    character follows the '0'), otherwise base 10 *)
 Definition nl_str2int (base : Z) (s : list Z) : option Z :=
@@ -239,6 +246,7 @@ Definition nl_str2int (base : Z) (s : list Z) : option Z :=
               end
             else (base, body) in
           if negb ((2 <=? base) && (base <=? 36)) then None else
+          if negb (first_is_digit base body) then None else      (* 4928697: pos == init after the digit loop: no digit at all *)
           let '(n, rest) := str2int_digits base 0 body in
           match skip_spaces rest with
           | [] => Some (wrap64 (if neg then u64 (- n) else n))
